@@ -1167,6 +1167,21 @@ def probe():
     g = Gen(None)
     t = FIXED_NESTED[0](g, 2, 2)
     facts["dot_operand_reindexed_at_every_level"] = run_nested(t, g.leaves) is False
+    # the mechanism itself (Cfg.reindexAll): arrayed_term(index) of a nested operand is the text of a fresh clone with that
+    # index at EVERY level, and the call leaves the operand and its nested operators as they were
+    try:
+        m = new_model()
+        a, b, c = (build(m, n, d_vec(2), values_for(d_vec(2), i)) for i, n in enumerate("abc"))
+        x = ((a + b) + c).clone_with_index([0])
+        inner = x.element_1
+        before = (list(x.index), list(inner.index))
+        t1 = x.arrayed_term([1], "t")
+        t2 = x.clone_with_index([1]).term("t")
+        t3 = "({} + {})".format("({} + {})".format(a[1].term("t"), b[1].term("t")), c[1].term("t"))
+        facts["arrayed_term_reclones_every_level"] = (fs_tokens(PREFIX + t1) == fs_tokens(PREFIX + t2) == fs_tokens(PREFIX + t3)
+                                                       and (list(x.index), list(inner.index)) == before)
+    except Exception:
+        facts["arrayed_term_reclones_every_level"] = False
     return facts
 
 
@@ -1176,6 +1191,13 @@ def gen_lean(facts):
             "namespace Bptk.C10.Gen\nopen Bptk.C10 Bptk.Py\n"
             "theorem holds : C10_full := C10_full_holds\n#print axioms holds\n"
             "theorem holds_wave2 : C10_wave2 := C10_wave2_holds\n#print axioms holds_wave2\n"
+            + ("/-- probed: arrayed_term re-clones the operand with the asked index at every level -/\n"
+               "def cfg : Cfg := { reindexAll := true }\n"
+               "theorem holds_nested : C10_nested_full cfg := C10_nested_full_of_good cfg (by decide)\n#print axioms holds_nested\n"
+               if facts.get("arrayed_term_reclones_every_level") else
+               "/-- probed: arrayed_term does NOT re-index the nested operators of a compound operand -/\n"
+               "def cfg : Cfg := { reindexAll := false }\n"
+               "theorem violated_nested : ¬ C10_nested_full cfg := C10_nested_witness cfg (by decide)\n#print axioms violated_nested\n") +
             "/-- wave 2, kernel-computed: a depth-3 operand of dot is re-indexed at every level (the probed mechanism),\n"
             "and the nested model on a flat tree is the wave-1 model. -/\n"
             "example : (expandE tNow (.op .dot (.el (.mat \"M\" 1 2)) (.op (.ew .add) (.op (.ew .add) (.el (.vec \"a\" 2))\n"
@@ -1402,7 +1424,7 @@ def run(chk):
         except pyfrag.Unsupported:
             unsupported += 1
             continue
-        req.append("expandx " + tree_wire(t)); real.append(line); meta.append(("tree", None, None))
+        req.append(f"expandxc {1 if facts.get('arrayed_term_reclones_every_level') else 0} " + tree_wire(t)); real.append(line); meta.append(("tree", None, None))
         txt = tree_show(t)
         acc = line != "none"
         dep = tree_depth(t)
